@@ -762,6 +762,12 @@ def mon_C07(ctx):
                         ctx.bad('batch-leaves-too-few-candidates', TRUE)
             elif method == 'meek':
                 sur = num(ctx, ref['surplus'])
+                if ctx.rule == 'meek-prf':
+                    # meek-prf logs no 'iterate' action: the snapshot that shows the distribution the exclusion is based on is
+                    # the 'defeat' action itself (tally and keep factor are zeroed after it is logged); the preceding 'round'
+                    # snapshot still shows the previous round's tallies
+                    rcs = acts[i]['cstate']
+                    sur = num(ctx, acts[i]['surplus'])
                 base = ctx.S if not rec.is_rational(E.V) else 1
                 if len(g2) == 1:
                     d = g2[0]
